@@ -21,10 +21,13 @@ def flavour(i):
 
 
 def chan_tuples(s):
-    return sorted(zip(s.frequency.tolist(), s.pch.tolist(), s.sr.tolist(), s.ar.tolist(), s.nr.tolist(),
-                      s.cd.tolist(), s.pmd.tolist(), s.pdl.tolist(), s.latency.tolist(), s.baud_rate.tolist(),
-                      s.slot_width.tolist(), [str(x) for x in s.label], s.delta_pdb.tolist(), s.tx_osnr.tolist(),
-                      s.tx_power.tolist(), s.roll_off.tolist()))
+    # (fixtures without transmitter data carry NaN: made equal to itself)
+    rows = zip(s.frequency.tolist(), s.pch.tolist(), s.sr.tolist(), s.ar.tolist(), s.nr.tolist(),
+               s.cd.tolist(), s.pmd.tolist(), s.pdl.tolist(), s.latency.tolist(), s.baud_rate.tolist(),
+               s.slot_width.tolist(), [str(x) for x in s.label], s.delta_pdb.tolist(), s.tx_osnr.tolist(),
+               s.tx_power.tolist(), s.roll_off.tolist())
+    return sorted((tuple('nan' if isinstance(x, float) and x != x else x for x in t) for t in rows),
+                  key=lambda t: t[0])
 
 
 def digest(obj):
